@@ -1,5 +1,6 @@
 """C05 — a generated molecule is a tree of whole, unmodified copies of the written tokens."""
 import random
+import re
 
 from rdkit import Chem
 from rdkit.Chem import Descriptors as rdD
@@ -9,6 +10,38 @@ from genadapt import frag_info
 from lib import Check
 
 NORMAL_VALENCE = {5: (3,), 6: (4,), 7: (3,), 8: (2,), 9: (1,), 15: (3, 5), 16: (2, 4, 6), 17: (1,), 35: (1,), 53: (1, 3, 5)}
+
+
+_DESC = re.compile(r"\[[$<>][^\]]*\]")
+_BRACKET = re.compile(r"\[(\d*)([A-Z][a-z]?|[a-z]{1,2})")
+
+
+def written_symbols(raw_text):
+    """element symbols of a token in written order, read off the WRITTEN text by a tokenizer of the SMILES organic subset that is
+    independent of the library's (bracket atoms, Cl / Br, B C N O P S F I, aromatic b c n o p s); hydrogens are left out"""
+    text = _DESC.sub("", raw_text)
+    out = []
+    i = 0
+    while i < len(text):
+        ch = text[i]
+        if ch == "[":
+            j = text.find("]", i)
+            m = _BRACKET.match(text, i)
+            if m:
+                sym = m.group(2)
+                out.append(sym[0].upper() + sym[1:])
+            i = (j + 1) if j >= 0 else len(text)
+            continue
+        if text[i:i + 2] in ("Cl", "Br"):
+            out.append(text[i:i + 2])
+            i += 2
+            continue
+        if ch in "BCNOPSFI":
+            out.append(ch)
+        elif ch in "bcnops":
+            out.append(ch.upper())
+        i += 1
+    return [x for x in out if x != "H"]
 
 
 def oracle_c05(rec):
@@ -30,6 +63,10 @@ def oracle_c05(rec):
     for i, tok in enumerate(toks):
         frag = Chem.MolFromSmiles(tok.generate_smiles_fragment())
         off = s["offs"][i]
+        ws = written_symbols(tok._raw_text)
+        fs = [a.GetSymbol() for a in frag.GetAtoms() if a.GetAtomicNum() != 1]
+        if ws != fs:
+            out.append(("residue-differs-from-written-token", inp, f"token written as {tok._raw_text!r} has atoms {ws}; its residues are built from {fs}", None))
         if frag.GetNumAtoms() != s["sizes"][i]:
             out.append(("residue-size", inp, f"instance {i} of {tok}", None))
             continue
